@@ -99,7 +99,7 @@ func parseSingleConstraint(c string) ([]*constraint, error) {
 	}
 
 	// Handle wildcard constraint (1.2.* or 1.x)
-	if strings.Contains(c, "*") || strings.Contains(c, "x") {
+	if isWildcardConstraint(c) {
 		return parseWildcardConstraint(c)
 	}
 
@@ -133,6 +133,17 @@ func parseSingleConstraint(c string) ([]*constraint, error) {
 		return nil, fmt.Errorf("invalid version in constraint '%s': %v", c, err)
 	}
 	return []*constraint{{operator: "=", version: version}}, nil
+}
+
+// isWildcardConstraint reports whether a dot-separated component of c is the wildcard *, x or X
+// (a letter x inside a branch name or a qualifier is not a wildcard)
+func isWildcardConstraint(c string) bool {
+	for _, part := range strings.Split(c, ".") {
+		if part == "*" || part == "x" || part == "X" {
+			return true
+		}
+	}
+	return false
 }
 
 // normalizeOperator normalizes operators for consistency
